@@ -20,6 +20,9 @@ def currentCfg : Cfg := {
   extKeepAll := true,
   extSchemaDres := true,
   extInputFieldExtended := true,
-  cloneRegsDeep := true
+  cloneRegsDeep := true,
+  cloneRegsFiltered := true,
+  cloneRegsByValue := false,
+  extKeepRegs := false
 }
 end PyGql.Generated.HeapCfg
